@@ -301,6 +301,8 @@ Section Oracles.
     end.
   Definition enum_member_int (v : str) (neg : bool) (fb : N) : option str :=
     member_tail_int fb (enum_int_base v neg fb).
+  (* guard F20h: no non-ASCII code point of the tag is a word character (for the tag sanitisers, which keep them) *)
+  Definition no_foreign_word (s : str) : bool := forallb (fun c => is_ascii c || negb (word c)) s.
 End Oracles.
 
 (* ================================================================= guards (executable) *)
@@ -310,3 +312,8 @@ Definition guard_F20a (s : str) : bool := negb (mem_str (class_name s) cap_keywo
 (* F20b/c/d: a name without any ASCII letter or digit gives the empty method / module / attribute name
    (module and tag names: or a non-ASCII name that need not be an identifier) *)
 Definition has_alnum (s : str) : bool := existsb is_alnum s.
+(* F20d: the tag sanitisers have no digit prefix: the first ASCII letter-or-digit must not be a digit *)
+Definition first_alnum_not_digit (s : str) : bool :=
+  negb (starts_digit (dropwhile (fun c => negb (is_alnum c)) s)).
+(* F20i: is_valid_python_identifier accepts one trailing line feed *)
+Definition no_trailing_lf (s : str) : bool := negb (match rev s with c :: _ => c =? 10 | [] => false end).
